@@ -20,7 +20,7 @@ WORK = os.path.join(OUT, ".work")
 EVID = os.path.join(OUT, "evidence")
 REPLAY = os.path.join(OUT, "out", "replay")
 TLA_JAR = "/opt/veriftools/tla/tla2tools.jar:/opt/veriftools/tla/CommunityModules-deps.jar"
-NCPU = os.cpu_count() or 4
+NCPU = int(os.environ.get("VERIF_NCPU") or os.cpu_count() or 4)     # VERIF_NCPU: cap when several checks run side by side
 
 
 class MachineryError(Exception):
@@ -312,7 +312,7 @@ def pmap(fn, items, procs=None, chunksize=1):
     """Parallel map in forked worker processes (the parent has already imported the heavy modules)."""
     import multiprocessing as mp
     items = list(items)
-    procs = min(procs or NCPU, max(1, len(items)))
+    procs = min(procs or NCPU, NCPU, max(1, len(items)))
     if procs <= 1:
         return [fn(x) for x in items]
     ctx = mp.get_context("fork")
